@@ -4,6 +4,12 @@ import json, sys, os
 ROOT = os.path.dirname(os.path.dirname(os.path.abspath(__file__)))
 
 CHECKS = {
+ "C01": dict(
+    technique="property-based differential testing of compiled client programs: direct call vs generated-trait call, compared on result, call trace (fn tag, receiver identity, arguments) and &mut arguments",
+    engine="E2",
+    text="Generated programs (entraited fns and modules over a typed parameter/pattern/deps/option grammar, both cargo feature settings) are compiled by rustc against the working tree and run; every fn is called directly and through its generated trait on the same receiver with pairwise-distinct argument values, and results, one-entry traces and &mut arguments must agree. 2x300 programs quick / 2x6000 thorough; failures are shrunk on the choice tape with single-program rebuilds.",
+    note="Trusts rustc and the direct call as reference semantics; programs that fail to compile are counted and left to C03 (run inconclusive above 5%); mock derivations are only made active (exported) inside the conservative type alphabet unimock/mockall are known to accept.",
+    design="§2 C01"),
  "C02": dict(
     technique="property-based testing: grammar-generated fn/mod/impl inputs through the in-process macro, exact token-prefix oracle, proptest shrinking",
     engine="E1",
